@@ -114,7 +114,7 @@ def _rel_of(context):
 
 @matcher("same_table_twice_in_from")
 def _m_same_table(pid, v, context):
-    if v.get("kind") not in ("database-raised",):
+    if v.get("kind") not in ("database-raised", "processed-tree-not-executable", "process-raised", "executor-failed"):
         return False
     detail = v.get("detail", "")
     if "OperationalError" not in detail or not ("ambiguous column name" in detail or "no such column" in detail):
@@ -196,3 +196,88 @@ def _m_select_spine(pid, v, context):
 
     bad = [n for n in walk.walk(rel) if isinstance(n, sql.Select) and select_incoherence(n)]
     return bool(bad) and all(select_spine_elided_calculation(n) for n in bad)
+
+
+def _changes_on_process(t) -> bool:
+    """Structural: would Processor.process hand back a *different object* for this subtree?
+    (an unprocessed transfer below, or a chain with a statically empty branch that gets pruned)"""
+    from lsst.daf.relation import BinaryOperationRelation, Chain, MarkerRelation, Transfer, UnaryOperationRelation
+
+    if t.payload is not None:
+        return False
+    match t:
+        case Transfer():
+            return True
+        case MarkerRelation():
+            return _changes_on_process(t.target)
+        case UnaryOperationRelation():
+            return _changes_on_process(t.target)
+        case BinaryOperationRelation():
+            if isinstance(t.operation, Chain) and (t.lhs.max_rows == 0 or t.rhs.max_rows == 0):
+                return True
+            return _changes_on_process(t.lhs) or _changes_on_process(t.rhs)
+    return False
+
+
+def sql_materialization_over_changing_upstream(rel) -> bool:
+    """Cause test for KF-PROCESSOR-SQL-MATERIALIZATION: some payload-less Materialization living in a SQL
+    engine whose upstream subtree is rebuilt by processing.  The Processor then re-creates the
+    materialization through sql.Engine.materialize, which returns a Select *wrapper*; the payload is
+    attached to (or read from) that wrapper instead of the Materialization node."""
+    from lsst.daf.relation import Materialization, sql
+
+    from . import walk
+
+    for n in walk.walk(rel):
+        if isinstance(n, Materialization) and isinstance(n.engine, sql.Engine) and n.payload is None:
+            if _changes_on_process(n.target):
+                return True
+    return False
+
+
+@matcher("processor_sql_materialization")
+def _m_proc_sql_mat(pid, v, context):
+    rel = _rel_of(context)
+    if rel is None:
+        return False
+    pre = getattr(context, "pre_state_flag", None)
+    flagged = pre if pre is not None else sql_materialization_over_changing_upstream(rel)
+    if not flagged:
+        return False
+    kind, detail = v.get("kind"), v.get("detail", "")
+    if kind in ("processed-tree-not-executable", "process-raised", "executor-failed") and "Cannot persist materialization" in detail:
+        return True
+    if kind in ("materialization-recomputed", "hook-repeated"):
+        return True
+    return False
+
+
+def buried_sorted_union_with_empty_branch(rel) -> bool:
+    """Cause test for KF-PROCESSOR-REBUILD-ORDER-LOSS: a compound Select (UNION) that carries a sort
+    without a slice, is *nested below* other nodes (the sort is already buried in a subquery - accepted at
+    construction because a calculation/selection on a UNION nests it), and whose chain has a statically
+    empty branch.  Processing prunes that branch, the rebuilt select is no longer compound, the re-applied
+    calculation/selection merges next to the sort, and the construction-time order-loss guard fires."""
+    from lsst.daf.relation import BinaryOperationRelation, Chain, sql
+
+    from . import walk
+
+    for n in walk.walk(rel):
+        if n is rel or not isinstance(n, sql.Select):
+            continue
+        if n.is_compound and n.has_sort and not n.has_slice:
+            c = n.skip_to
+            if isinstance(c, BinaryOperationRelation) and isinstance(c.operation, Chain):
+                if c.lhs.max_rows == 0 or c.rhs.max_rows == 0:
+                    return True
+    return False
+
+
+@matcher("processor_rebuild_order_loss")
+def _m_proc_order_loss(pid, v, context):
+    rel = _rel_of(context)
+    if rel is None or v.get("kind") != "process-raised":
+        return False
+    if "RelationalAlgebraError" not in v.get("detail", "") or "will not preserve row order" not in v.get("detail", ""):
+        return False
+    return buried_sorted_union_with_empty_branch(rel)
